@@ -331,6 +331,7 @@ func referenceGraphs(c *engine.Ctx) {
 
 func Run(c *engine.Ctx) {
 	referenceGraphs(c)
+	decoderMembers(c)
 	rw.SilenceStdout()
 	faults := jsonfault.Faults()
 	var light []jsonfault.Fault
